@@ -300,3 +300,82 @@ def mon_c20(case, out):
         if a["tx"] != b["tx"]:
             bad.append(("segmentation-changes-wire-messages", "segmented %s vs whole %s" % (a["tx"][:6], b["tx"][:6])))
     return bad
+
+
+def _hex(s):
+    return s.encode().hex()
+
+
+def mon_c12(case, out):
+    """resolv.conf search semantics evaluated on the implementation: candidate names in order, stop at the first
+    data or hard error, final status = no-data if any candidate existed without data, else the last status."""
+    bad = []
+    doms, ndots, nosearch = [], 1, False
+    cur = None   # dict(tok, kind, cands, sent, outcomes, single)
+    pending_outcome = None
+    for op, evs, line in _iter(case, out):
+        t = op.split()
+        kv = _kv(t)
+        if t[0] == "chan":
+            doms = [d for d in kv.get("domains", "").split(",") if d]
+            ndots = int(kv.get("ndots", 1))
+            nosearch = bool(int(kv.get("flags", "0")) & 32)
+            cur = None
+            continue
+        if t[0] == "req" and kv.get("kind") in ("search", "gai"):
+            name = kv["name"]
+            if name.endswith(".") or nosearch:
+                cands = [name]
+            else:
+                nd = name.count(".")
+                mid = [name + "." + ("" if d == "." else d) for d in doms]
+                cands = ([name] if nd >= ndots else []) + mid + ([name] if nd < ndots else [])
+            cur = {"tok": int(kv["tok"]), "kind": kv["kind"], "cands": cands, "sent": [], "outcomes": [], "done": None}
+        if t[0] == "reply":
+            pending_outcome = kv.get("kind")
+        if t[0] == "adv":
+            pending_outcome = "timeout"
+        if t[0] in ("proc", "tick") and pending_outcome and cur is not None and cur["done"] is None \
+                and len(cur["outcomes"]) < len(cur["sent"]):
+            cur["outcomes"].append(pending_outcome)
+            pending_outcome = None
+        for name, args in evs:
+            if name == "tx" and cur is not None and cur["done"] is None:
+                a = _kv(args)
+                q = bytes.fromhex(a.get("q", "")).decode() if a.get("q", "-") != "-" else ""
+                # a new candidate is a new query (new id); the same id again is a retransmission
+                if cur.get("lastid") != a.get("id"):
+                    cur["sent"].append(q)
+                    cur["lastid"] = a.get("id")
+            elif name == "cb" and cur is not None and int(args[0]) == cur["tok"] and cur["done"] is None:
+                cur["done"] = args[1]
+                # expectation
+                cands = [c[:-1] if c.endswith(".") and len(c) > 1 else c for c in cur["cands"]]
+                exp_sent = cur["sent"]
+                if [s.lower() for s in cur["sent"]] != [c.lower() for c in cands[:len(cur["sent"])]]:
+                    bad.append(("search-candidates-order", "token %d: names sent %s, candidates %s" % (cur["tok"], cur["sent"], cands)))
+                # outcomes as scripted: the k-th candidate got cur["outcomes"][k]
+                outs_ = cur["outcomes"][:len(cur["sent"])]
+                if len(outs_) == len(cur["sent"]) and outs_:
+                    def soft(o, cand):
+                        return o in ("nodata", "nxdomain") or (o in ("servfail", "refused") and cand.count(".") == 0)
+                    stop = None
+                    for k, o in enumerate(outs_):
+                        if not soft(o, cands[k]):
+                            stop = k
+                            break
+                    st_map = {"noerror": "ok", "nodata": "nodata", "nxdomain": "notfound", "servfail": "servfail",
+                              "refused": "refused", "timeout": "timeout", "formerr": "formerr"}
+                    if stop is not None:
+                        if stop != len(outs_) - 1:
+                            bad.append(("search-did-not-stop", "token %d went on after %s on %r" % (cur["tok"], outs_[stop], cands[stop])))
+                        exp = st_map[outs_[stop]]
+                    else:
+                        if len(outs_) < len(cands):
+                            exp = None    # scenario ended early
+                        else:
+                            exp = "nodata" if "nodata" in outs_ else st_map[outs_[-1]]
+                    if exp is not None and cur["done"] != exp:
+                        bad.append(("search-final-status", "token %d (%s %r): outcomes %s -> reported %s, expected %s"
+                                    % (cur["tok"], cur["kind"], cands, outs_, cur["done"], exp)))
+    return bad
